@@ -66,6 +66,20 @@ example : Untruncated ⟨0, 10, [0, 1, 2, 1, 2, 0, 0, 1, 2, 1, 2, 0, 0], 2, fals
   subst hc
   exact ⟨by decide, ⟨2, by decide⟩⟩
 
+/-- the full colour image `get_image("rgb")` is a query like any other (`Query.rgb`: the three memoised colour planes, read in
+    the order red, green, blue and stacked anew on every call - the memo tables are keyed by `Prim`, which has no
+    full-colour entry): asked, asked again on a crop made in between, and asked again on the source, it answers what the
+    twins answer, and the only entries it leaves in the source's table are the three planes (evaluated) -/
+example :
+    let f : File := ⟨0, 10, [0, 1, 2, 1, 2, 0, 0, 1, 2, 1, 2, 0, 0], 2, false, false, some ⟨-20, 40⟩, some ⟨0, 13⟩, none⟩
+    let ops : List Op := [.q 0 .rgb, .d 0 (.view .full), .q 1 .rgb, .q 0 .rgb]
+    run f 0 130 ops = freshAll f 0 130 ops
+      ∧ (run f 0 130 ops)[0]? = some (.pair (.pair (.at (.image .red) 0 130) (.at (.image .green) 0 130))
+          (.at (.image .blue) 0 130))
+      ∧ ((runL f [initObj 0 130] (label ops)).1.map fun o => o.cache.map (·.1))
+          = [[.image .blue, .image .green, .image .red], [.image .blue, .image .green, .image .red]] := by
+  decide +kernel
+
 /-- **derive_preserves_source.**  On a calm heap (any state reachable from an untruncated object), NO
     derivation — copy, re-calibration, time slice, crop, down-sampling, flip, frame selection, failed or empty
     derivation, addressed to any object — changes what any object that existed before answers to any later
